@@ -2,7 +2,7 @@ Q, T = "quick", "thorough"
 
 PROP = dict(
     level="exploration",
-    level_text="Relational monitor + online invariant on the real Schedule: generated models (44 schedule keyword templates incl. "
+    level_text="Relational monitor + online invariant on the real Schedule: generated models (72 schedule keyword templates incl. "
                "ACTIONX, UDQ, MSW, network, VFP, geo-modifiers) and the shipped decks are cut after report step k and the tail is "
                "removed, thinned or reordered; states 0..k must be equal under ScheduleState::operator== and under the structural "
                "dump of every serialised member. A guarded hook in Schedule::handleKeyword/end_report asserts after every handled "
